@@ -34,7 +34,7 @@ def plan(tier, seed):
     items = [{"kind": "seqs", "disp": d, "exhaustive": "every outcome sequence of length <=3 (ending in server close) x {builtin, rel}"}
              for d in ("builtin", "rel")]
     items.append({"kind": "closer_sweep", "exhaustive": "close() from a second thread at 40 instants across a refused-refused-established-lost-established history"})
-    n = 4000 if tier == "quick" else 80000
+    n = 4000 if tier == "quick" else 320000
     per = 125 if tier == "quick" else 1000
     for s in range(0, n, per):
         items.append({"kind": "rand", "start": s, "count": per})
